@@ -10,6 +10,7 @@ import hashlib
 import importlib.util
 import json
 import os
+import glob
 import re
 import resource
 import shutil
@@ -20,6 +21,7 @@ import time
 
 VERIF = os.path.dirname(os.path.dirname(os.path.abspath(__file__)))
 REPO = os.environ.get('VERIF_REPO', '/repo')
+REPLAYS = os.environ.get('VERIF_REPLAY_DIR', os.path.join(VERIF, 'replays'))
 sys.path.insert(0, os.path.join(VERIF, 'tools'))
 import weave  # noqa: E402
 
@@ -103,7 +105,7 @@ def do_weave(specdir, mod, scratch, stack):
         parse = os.path.join(REPO, w['parse']) if w.get('parse') else None
         try:
             woven, cen, site = weave.weave_file(path, w['fns'], clang_flags + w.get('cflags', []), parse, site, loops,
-                                                split_rmw=w.get('split_rmw', True))
+                                                split_rmw=w.get('split_rmw', True), stub_calls=(w.get('stub_calls') if isinstance(w.get('stub_calls'), dict) else tuple(w.get('stub_calls', ()))))
         except weave.WeaveError as e:
             raise Undecided('weave: %s' % e)
         out = os.path.join(scratch, 'woven', w['file'])
@@ -266,6 +268,13 @@ def run_group(pid, specdir, g, scratch, tier, stack, want_trace=None):
     if results is None:
         res['error'] = 'cbmc: %s (rc=%s) %s' % (status, rc, err[-500:])
         return res
+    # a solver that ran out of memory or was interrupted leaves obligations UNKNOWN / ERROR (and cbmc may still print a partial result
+    # list): that is a tool limit, never a verdict
+    odd = [r for r in results if r.get('status') not in ('SUCCESS', 'FAILURE')]
+    if odd or 'out of memory' in out.lower() or 'out of memory' in (err or '').lower():
+        res['error'] = 'cbmc left %d obligations without a verdict (%s)%s' % (len(odd), ','.join(sorted(set(str(r.get('status')) for r in odd))) or 'partial run',
+                                                                           '; solver out of memory' if 'out of memory' in (out + (err or '')).lower() else '')
+        return res
     for r in results:
         pname, desc = r.get('property', ''), r.get('description', '')
         cls = classify(pname, desc, name)
@@ -278,6 +287,22 @@ def run_group(pid, specdir, g, scratch, tier, stack, want_trace=None):
         if want_trace and r.get('trace'):
             ob['trace'] = r['trace']
         res['obligations'].append(ob)
+    # thorough tier: groups that finished quickly are decided a second time by an independent SAT back end (CaDiCaL unless the group
+    # already asks for it, then MiniSat); the two verdict maps must agree, otherwise the group is undecided (tool problem, never a verdict)
+    if tier == 'thorough' and not want_trace and secs < 120 and not os.environ.get('VERIF_SELFTEST_CHILD'):
+        second = ['--sat-solver', 'minisat2'] if 'cadical' in cb else ['--sat-solver', 'cadical']
+        cb2 = [c for c in cb[:-1] if c not in ('--sat-solver', 'cadical')] + second + [cur]
+        rc2, out2, err2, secs2 = run(cb2, max(300, int(secs * 10)))
+        results2, status2 = parse_cbmc_json(out2) if rc2 != -999 else (None, 'timeout')
+        if results2 is not None:
+            v1 = {(r.get('property'), r.get('description')): r.get('status') for r in results}
+            v2 = {(r.get('property'), r.get('description')): r.get('status') for r in results2}
+            res['second_backend'] = dict(solver=second[1], seconds=round(secs2, 2), agree=(v1 == v2))
+            if v1 != v2:
+                res['error'] = 'SAT back ends disagree on %d obligations' % len([k for k in v1 if v1.get(k) != v2.get(k)])
+                return res
+        else:
+            res['second_backend'] = dict(solver=second[1], seconds=round(secs2, 2), agree=None, note='second back end gave no verdict: %s' % status2)
     res['seconds'] = round(time.time() - t0, 2)
     return res
 
@@ -364,7 +389,7 @@ def main():
             only = f.split('=', 1)[1].split(',')
     t0 = time.time()
     seed = int(os.environ.get('VERIF_SEED', '0') or 0)
-    evidence_path = os.path.join(VERIF, 'evidence', pid + '.json')
+    evidence_path = os.path.join(os.environ.get('VERIF_EVIDENCE_DIR', os.path.join(VERIF, 'evidence')), pid + '.json')
     scratch = tempfile.mkdtemp(prefix='verif_%s_' % pid)
     rc = 2
     try:
@@ -430,8 +455,10 @@ def run_property(pid, tier, flags, only, scratch, t0, seed, evidence_path):
         json.dump(sorted(set(keys) | set(old)), open(expected_file, 'w'), indent=1)
         print('blessed %d obligation keys' % len(keys))
     undecided = []
+    und_groups = set()   # groups with an undecided item: their failures are not reported; failures of fully decided groups are
+    und_global = False
     for r in errors:
-        undecided.append('%s: %s' % (r['name'], r['error']))
+        undecided.append('%s: %s' % (r['name'], r['error'])); und_groups.add(r['name'])
     if os.path.exists(expected_file) and not only:
         exp = json.load(open(expected_file))
         present = set(keys)
@@ -441,18 +468,18 @@ def run_property(pid, tier, flags, only, scratch, t0, seed, evidence_path):
                 gname = e.split(':', 1)[0]
                 if gname not in gmap and tier == 'quick':
                     continue  # obligation of a thorough-only group
-                undecided.append('expected obligation missing: ' + e)
+                undecided.append('expected obligation missing: ' + e); und_groups.add(gname)
     elif not only and '--bless' not in flags:
-        undecided.append('no expected.json (run with --bless on the unchanged tree)')
+        undecided.append('no expected.json (run with --bless on the unchanged tree)'); und_global = True
     canaries = [o for o in ledger if o['cls'] == 'canary']
     for o in canaries:
         if o['status'] != 'FAILURE':
             o['reach_fail'] = True
     for o in ledger:
         if o['cls'] == 'no-body' and o['status'] == 'FAILURE':
-            undecided.append('unmodelled callee: %s %s' % (o['name'], o['description']))
+            undecided.append('unmodelled callee: %s %s' % (o['name'], o['description'])); und_groups.add(o['group'])
         if o['cls'] == 'unwinding' and o['status'] == 'FAILURE' and not o['bounded']:
-            undecided.append('loop escaped its contract: %s' % o['name'])
+            undecided.append('loop escaped its contract: %s' % o['name']); und_groups.add(o['group'])
     failed = []
     for o in ledger:
         if o['cls'] in ('canary',):
@@ -463,7 +490,7 @@ def run_property(pid, tier, flags, only, scratch, t0, seed, evidence_path):
             continue
         if o['cls'] == 'unwinding':
             if o['status'] == 'FAILURE' and o['bounded']:
-                undecided.append('bound too small: %s' % o['name'])
+                undecided.append('bound too small: %s' % o['name']); und_groups.add(o['group'])
             continue
         if o['status'] != 'SUCCESS':
             failed.append(o)
@@ -492,11 +519,12 @@ def run_property(pid, tier, flags, only, scratch, t0, seed, evidence_path):
         seen.add(k['id'])
         lines.append('KNOWN-FINDING: property=%s %s [%s]' % (pid, k['text'], o['key']))
     replay_files = []
-    if violations and not undecided_blocks(undecided):
-        os.makedirs(os.path.join(VERIF, 'replays', pid), exist_ok=True)
+    reportable = [] if und_global else [o for o in violations if o['group'] not in und_groups]
+    if reportable:
+        os.makedirs(os.path.join(REPLAYS, pid), exist_ok=True)
         done_groups = set()
-        for o in violations:
-            if len(replay_files) >= 6:
+        for o in reportable:
+            if len(replay_files) >= 3:
                 lines.append('VIOLATION property=%s replay=%s obligation="%s" no-failing-input-found' % (
                     pid, replay_files[0]['path'], o['key']))
                 if len(lines) > 14:
@@ -504,6 +532,11 @@ def run_property(pid, tier, flags, only, scratch, t0, seed, evidence_path):
                     break
                 continue
             done_groups.add((o['group'], o['cls'] == 'canary'))
+            if os.environ.get('VERIF_NO_REPLAY') or os.environ.get('VERIF_SELFTEST_CHILD'):
+                # detection-only runs (specification self-test, tools/mutest.sh -q): no counterexample extraction, no native replay
+                lines.append('VIOLATION property=%s replay=none obligation="%s" no-failing-input-found' % (pid, o['key']))
+                replay_files.append(dict(path='none', reproduced=False))
+                continue
             rf = make_replay(pid, specdir, gmap.get(o['group']), o, scratch, tier, stack)
             replay_files.append(rf)
             suffix = '' if rf['reproduced'] else ' no-failing-input-found'
@@ -539,7 +572,8 @@ def run_property(pid, tier, flags, only, scratch, t0, seed, evidence_path):
                                            woven_calls=v['calls'], loops=v.get('loops', 0),
                                            loop_contracts=len(v.get('loop_contracts', []))) for k, v in census.items()],
             groups=[dict(name=r['name'], mode=r['mode'], cls=r['cls'], seconds=r['seconds'],
-                         solver_seconds=r.get('solver_seconds'), backend='cbmc 6.11 SAT (MiniSat)',
+                         solver_seconds=r.get('solver_seconds'), backend=('cbmc 6.11 SAT (CaDiCaL)' if 'cadical' in ' '.join(r.get('cmds', [])[-1:]) else 'cbmc 6.11 SAT (MiniSat)'),
+                         second_backend=r.get('second_backend'),
                          obligations=len(r['obligations']), bound=r.get('bound'), error=r['error'],
                          functions=r['functions']) for r in results],
             bounded=dict(obligations=len(bnd), passed=len([o for o in bnd if o['status'] == 'SUCCESS']),
@@ -556,6 +590,11 @@ def run_property(pid, tier, flags, only, scratch, t0, seed, evidence_path):
         wall_s=round(time.time() - t0, 2),
         violations=len(violations),
     )
+    if tier == 'thorough' and not only and '--no-selftest' not in flags and not os.environ.get('VERIF_SELFTEST_CHILD'):
+        # specification self-test: every kept mutant of this property (spec/<id>/mutants/*.diff, applied to a scratch copy of the sources,
+        # never to /repo) must make the quick check report a violation, every equivalent change must leave it quiet.  The outcome is
+        # recorded; it never changes this run's verdict (a miss says the specification is weak, not that the property is violated).
+        ev['coverage']['spec_selftest'] = selftest(pid, specdir, scratch)
     os.makedirs(os.path.dirname(evidence_path), exist_ok=True)
     json.dump(ev, open(evidence_path, 'w'), indent=1)
 
@@ -571,10 +610,45 @@ def run_property(pid, tier, flags, only, scratch, t0, seed, evidence_path):
     if undecided:
         for u in undecided[:20]:
             print('UNDECIDED property=%s: %s' % (pid, u))
+    if reportable:
+        return 1    # a failed obligation in a fully decided group stands, whatever else could not be decided
+    if undecided:
         return 2
     if violations:
         return 1
     return 0
+
+
+def selftest(pid, specdir, scratch):
+    import concurrent.futures
+    jobs = [(f, 1) for f in sorted(glob.glob(os.path.join(specdir, 'mutants', '*.diff')))] + \
+           [(f, 0) for f in sorted(glob.glob(os.path.join(specdir, 'equivalent', '*.diff')))]
+    def one(job):
+        diff, want = job
+        name = os.path.basename(diff)[:-5]
+        d = tempfile.mkdtemp(prefix='verif_self_%s_' % pid)
+        try:
+            repo2 = os.path.join(d, 'repo')
+            shutil.copytree(REPO, repo2, ignore=shutil.ignore_patterns('_build', '.git', '*.o', '*.a'))
+            r = subprocess.run(['patch', '-p1', '-s', '-i', diff], cwd=repo2, capture_output=True, text=True)
+            if r.returncode != 0:
+                return name, want, 'patch-failed'
+            env = dict(os.environ, VERIF_REPO=repo2, VERIF_EVIDENCE_DIR=os.path.join(d, 'ev'), VERIF_REPLAY_DIR=os.path.join(d, 'rp'),
+                       VERIF_SELFTEST_CHILD='1', VERIF_NO_NATIVE='1')
+            r = subprocess.run([sys.executable, os.path.abspath(__file__), pid, 'quick'], env=env, capture_output=True, text=True)
+            return name, want, r.returncode
+        finally:
+            shutil.rmtree(d, ignore_errors=True)
+    res = []
+    with concurrent.futures.ThreadPoolExecutor(max_workers=int(os.environ.get('VERIF_SELFTEST_JOBS', '4'))) as ex:
+        for name, want, rc in ex.map(one, jobs):
+            res.append(dict(change=name, kind='mutant' if want else 'equivalent', exit=rc, ok=(rc == 1) if want else (rc == 0)))
+    bad = [r for r in res if not r['ok']]
+    for r in bad:
+        print('SELFTEST-WARNING property=%s %s %s: quick check exited %s' % (pid, r['kind'], r['change'], r['exit']))
+    return dict(mutants=len([r for r in res if r['kind'] == 'mutant']), mutants_caught=len([r for r in res if r['kind'] == 'mutant' and r['ok']]),
+                equivalents=len([r for r in res if r['kind'] == 'equivalent']), equivalents_quiet=len([r for r in res if r['kind'] == 'equivalent' and r['ok']]),
+                not_ok=[r for r in bad])
 
 
 def undecided_blocks(undecided):
@@ -583,7 +657,7 @@ def undecided_blocks(undecided):
 
 def make_replay(pid, specdir, g, o, scratch, tier, stack):
     safe = re.sub(r'[^A-Za-z0-9_.-]+', '_', o['key'])[:120]
-    path = os.path.join(VERIF, 'replays', pid, safe + '.replay.json')
+    path = os.path.join(REPLAYS, pid, safe + '.replay.json')
     rec = dict(property=pid, obligation=o['key'], name=o['name'], description=o['description'], cls=o['cls'],
                group=o['group'], reproduced=False, path=path)
     if g is None or o['cls'] in ('canary', 'static-fact'):
